@@ -18,6 +18,8 @@ func init() {
 			// the decompressors gxz relies on: a failing read is never turned into a clean end
 			ruleIO(c, r, readerCone(c), "lib:", true)
 			ruleDecoderReadErr(c, r, "")
+			ruleEOF(c, r, readerAPI(c), readerCone(c), "lib:")
+			ruleDeferFlush(c, r, "", "cmd/gxz", "", "lzma")
 			ruleDeferResult(c, r, "")
 		},
 	})
@@ -32,6 +34,18 @@ func init() {
 			"boolean value after a flag is swallowed by the parser - not visible to these rules), .txz/.tlz naming beyond target != input.",
 		run: func(c *Ctx, r *Report) {
 			ruleGxzFlags(c, r, "")
+			// gxz is the library behind a command line: its round trips and its acceptance of xz-utils
+			// files stand on the codec and container rules (subset that pins the shared model)
+			ruleSpecConstants(c, r, "lib:")
+			ruleOpSiblings(c, r, "lib:")
+			ruleCodecSiblings(c, r, "lib:")
+			ruleXZReaderChecks(c, r, "lib:")
+			ruleXZWriter(c, r, "lib:")
+			{
+				t := getChunkTables(c, r, "lib:")
+				ruleWriter2(c, r, t, "lib:")
+				ruleStartChunkEffects(c, r, t, "lib:")
+			}
 			ruleDashDash(c, r, "")
 			ruleDeferResult(c, r, "")
 			ruleReaderWindow(c, r, "")
